@@ -133,6 +133,11 @@ def env_property(pid, tier, seed, only=None):
         extra_states += st_r
         extra_note["rollouts"] = {"batches": len(live), "skipped": [r["env"] + ": " + r["note"] for r in recs if r["skipped"]][:6],
                                   "sample": {k: live[0][k] for k in ("env", "B", "steps", "bound")} if live else {}}
+        for rec in recs:
+            if rec.get("crash"):
+                roll_viol.append({"property": "C02", "env": rec["env"], "monitor": "rollout-decoding-loop-raised",
+                                  "inst": {k: rec[k] for k in ("env", "B", "steps", "bound", "note")}, "actions": [],
+                                  "detail": rec["crash"]})
         for f in fails:
             rec = live[f[0]]
             roll_viol.append({"property": "C02", "env": rec["env"], "monitor": "rollout-" + f[1],
